@@ -1136,6 +1136,7 @@ func (srv *server) newClient(c net.Conn) (*client, error) {
 		close:         make(chan struct{}),
 		closed:        make(chan struct{}),
 		connected:     make(chan struct{}),
+		authContinue:  make(chan struct{}, 1),
 		error:         make(chan error, 1),
 		in:            make(chan packets.Packet, 8),
 		out:           make(chan packets.Packet, 8),
